@@ -608,8 +608,9 @@ func c16FlagReleasedOnEveryExit(p *Prog, r *Report, rule string) {
 	if rs == nil {
 		return
 	}
-	for _, lit := range goLits(rs) {
-		f := p.NewFlat(rs.Pkg, lit.Body)
+	for _, gb := range p.goBodies(rs) {
+		lit := gb.Pos
+		f := p.FlatInl(gb.FI)
 		rel := f.Match(func(n *GNode) bool {
 			found := false
 			ast.Inspect(n.Ast, func(x ast.Node) bool {
@@ -631,7 +632,7 @@ func c16FlagReleasedOnEveryExit(p *Prog, r *Report, rule string) {
 			if f.isNoReturnExit(f.Nodes[e]) {
 				continue
 			}
-			if !f.MustPrecede(setOf(rel), e) {
+			if !f.MustPrecedeNil(setOf(rel), e) {
 				bad = "line " + p.pos(f.Nodes[e].Ast)
 			}
 		}
